@@ -272,11 +272,12 @@ C10CallbackCauses(n, r) ==
        \cup (IF c.idle > 0 /\ t > (IF Has(lastUse, sid) THEN lastUse[sid] ELSE logins[sid].at) + c.idle THEN {"login-state-honoured-after-idle-timeout"} ELSE {})
 
 \* a session inside both limits (with a second to spare) that nothing had removed when the request arrived (g0) is not dropped
+\* (a check that overlaps another one is exempt: the other one may remove the session while this one runs)
 C10DropCauses(n, r) ==
   LET sid == Req(n).cookie
       c   == flt[r.f]
       rd  == SelectSeq(Ops(n, "GetTokenResponse"), LAMBDA x : x.e.sid = sid /\ Good(x))
-  IN IF ~(Req(n).kind = "app" /\ Has(logins, sid) /\ sid \in stored /\ ~chk[n].g0 /\ Len(rd) > 0 /\ ~rd[1].e.res.ex
+  IN IF ~(Req(n).kind = "app" /\ Has(logins, sid) /\ sid \in stored /\ ~chk[n].g0 /\ ~chk[n].ovl /\ Len(rd) > 0 /\ ~rd[1].e.res.ex
           /\ Has(lastUse, sid) /\ logins[sid].f = r.f) THEN {}
      ELSE LET t == rd[1].at IN
        IF (c.abs = 0 \/ t + 1 < logins[sid].at + c.abs) /\ (c.idle = 0 \/ t + 1 < lastUse[sid] + c.idle)
